@@ -111,7 +111,8 @@ def permuted_registry(order):
     return reg
 
 
-def strtypes_traces(chk, corpus, configs, extra_orders, detect_stride=1):
+def strtypes_traces(chk, corpus, configs, extra_orders, detect_stride=1, pairs_per_registry=60):
+    rng = chk.rng
     I = Interner()
     ids = [I(s) for s in corpus]
     acc = {}
@@ -146,6 +147,25 @@ def strtypes_traces(chk, corpus, configs, extra_orders, detect_stride=1):
             tid = "%s.det%d" % (name, k)
             traces.append({"id": tid, "events": (evs if k == 0 else []) + dets[k:k + 500]})
             inputs[tid] = dict(inp, kind="detect", strings=[corpus[j] for j in range(0, min(len(corpus), 3))])
+        # strings side by side in one list: pairs of strings that several types accept
+        amb = [(s_, sid_) for s_, sid_ in zip(corpus, ids) if len(acc[sid_]) >= 1][:: max(1, len(corpus) // 400)]
+        amb += [(s_, ids[corpus.index(s_)]) for s_ in ("12", "10:30", "2018-01-02", "20180103", "2018-01-02T03:04:05", "1.5", "true", "1e3") if s_ in corpus]
+        lst = []
+        for _ in range(min(pairs_per_registry, len(amb) * 2)):
+            (s1, i1), (s2, i2) = rng.choice(amb), rng.choice(amb)
+            e = {"ev": "DetectList", "items": [i1, i2], "types": st["types"], "members": [], "exc": "", "text": "%r %r" % (s1[:20], s2[:20])}
+            try:
+                t = gen._detect_type([s1, s2])
+                inner = t.type
+                parts = inner.types if hasattr(inner, "types") else [inner]
+                e["members"] = sorted({p.__name__ for p in parts if isinstance(p, type) and p.__name__ in CLS})
+            except Exception as ex:
+                e["exc"] = "%s: %s" % (type(ex).__name__, str(ex)[:60])
+            lst.append(e)
+        if lst:
+            tid = "%s.lst" % name
+            traces.append({"id": tid, "events": lst})
+            inputs[tid] = dict(inp, kind="detect-list")
         # resolution of every non-empty subset of the registered types
         res = []
         for n in range(1, len(reg.types) + 1):
